@@ -1071,8 +1071,13 @@ impl ReCompiler {
         if matches!(op1, Operation::EndProgram(_)) {
             return !reluctant;
         }
-        if matches!(op1, Operation::Bol(_)) || matches!(op1, Operation::Eol(_)) {
-            return true;
+        if matches!(op1, Operation::Bol(_)) {
+            // giving back repetitions may be what lets ^ match
+            return false;
+        }
+        if matches!(op1, Operation::Eol(_)) {
+            // $ can match before a newline that the repeated term could also consume
+            return !op0.get_initial_character_class(case_blind).contains('\n');
         }
         if let Some(repeat_operation) = op1.repeat_operation() {
             if repeat_operation.min() == 0 {
